@@ -663,6 +663,8 @@ class Model(object):
         if lhs.is_Derivative:
             if len(lhs.args) > 2 or lhs.args[1][1] > 1:
                 raise ValueError('Only first order derivatives wrt a single variable are supported')
+            if not isinstance(lhs.args[0], Variable):
+                raise ValueError('Equation LHS should be the derivative of a variable, not {}'.format(lhs))
         if lhs.is_Derivative:
             state_var = lhs.free_symbols.pop()
             if check_duplicates:
